@@ -2,6 +2,7 @@
 # applies every seeded change under /verif/seeded/*/patch.diff to /repo, runs the quick check of its property,
 # reverts; prints one line per mutant. /repo must be clean.
 cd /verif
+export VERIF_NO_EVIDENCE=1   # evidence files describe runs against the unchanged /repo only
 [ -z "$(git -C /repo status --porcelain)" ] || { echo "/repo not clean"; exit 1; }
 for d in seeded/*/; do
   n=$(basename $d)
